@@ -18,6 +18,9 @@
                                            (ties -> slot A), alloc_end := free_offset,
                                            next_root := the other slot; LinearStorage::open
                                            then reads the head set
+     Scrub · ScrubSync                     Writer::open, when the other slot holds no valid root:
+                                           it is overwritten with zeros and fdatasync'ed before
+                                           anything else is written (see StaleRootRevival below)
      Crash(plan)                           the process/machine dies: every write issued since the
                                            last fdatasync/fsync independently persists not at
                                            all, completely, or as a proper prefix.
@@ -33,7 +36,15 @@
 
    `Mutant` switches on spec-level mutants used by the non-vacuity self-test:
    "nosync1" (no data sync before the root), "noalt" (always slot A), "nochecksum"
-   (torn roots accepted), "nogen" (generation not incremented).                              *)
+   (torn roots accepted), "nogen" (generation not incremented), "noscrub" (an invalid slot is
+   left as it is on open — the code before the fix).
+
+   StaleRootRevival (found by TLC with MaxCrashes = 2 on the spec without Scrub, reproduced on
+   the real code by `vh-crash recrash`, fixed in /repo): crash 1 persists the root *body* of an
+   interrupted commit but not its length prefix — the slot is undecodable, the previous commit
+   is recovered, the next commit overwrites the interrupted commit's data; crash 2 persists
+   only the length prefix of the new root: prefix + stale body decode, carry the newest
+   generation and reference overwritten data.                                                *)
 EXTENDS Naturals, Sequences, FiniteSets, TLC
 
 CONSTANTS HdrLen,       \* units of the length prefix (code: 4 bytes)
@@ -42,6 +53,7 @@ CONSTANTS HdrLen,       \* units of the length prefix (code: 4 bytes)
           Chunk,        \* preallocation granularity (code: 4 MiB)
           BodySizes,    \* MC: sizes a data record body may have
           RootSizes,    \* MC: sizes a serialized root may have
+          ScrubLen,     \* units zeroed in an invalid root slot on open (code: 64)
           MaxCommits, MaxAppends, MaxCrashes, MaxCloses,   \* MC bounds
           PostCommits,  \* MC bound: commits that may still begin after a crash
           Mutant
@@ -307,18 +319,32 @@ Open ==
                      next |-> Other(o.slot), dirty |-> FALSE]
           /\ lay' = r.lay
           /\ done' = IF done # <<>> /\ done[Len(done)] = r.k THEN done ELSE Append(done, r.k)
-          /\ pc' = "idle"
+          /\ pc' = IF Decode(cache, Other(o.slot)) = {} /\ Mutant # "noscrub" THEN "scrub" ELSE "idle"
   /\ inprog' = 0
   /\ napp' = 0
-  /\ cur' = NoCur
+  /\ cur' = [NoCur EXCEPT !.slot = Other(Recover(cache).slot)]
   /\ UNCHANGED <<cache, dur, unsynced, rootlog, nid, ncommit, ncrash, nclose>>
+
+(* Writer::open, other slot invalid: wipe it ... *)
+Scrub ==
+  /\ pc = "scrub"
+  /\ Issue(W(cur.slot, ScrubLen, <<"zero", 0>>))
+  /\ pc' = "scrubsync"
+  /\ UNCHANGED <<mem, cur, Ghost>>
+
+(* ... durably, before the writer is handed out *)
+ScrubSync ==
+  /\ pc = "scrubsync"
+  /\ Flush
+  /\ pc' = "idle"
+  /\ UNCHANGED <<mem, cur, Ghost>>
 
 Next ==
   \/ Create \/ Fallocate \/ Fsync
   \/ \E n \in BodySizes, c \in BOOLEAN : AppendGrow(n, c) \/ AppendHdr(n, c)
   \/ AppendHdrAfterGrow \/ AppendBody
   \/ Sync1 \/ (\E n \in RootSizes : RootHdr(n)) \/ RootBody \/ Sync2
-  \/ Close \/ Crash \/ Open
+  \/ Close \/ Crash \/ Open \/ Scrub \/ ScrubSync
 
 Spec == Init /\ [][Next]_vars
 
@@ -367,6 +393,6 @@ WithinAlloc == pc = "body" => mem.free + HdrLen + cur.n <= mem.alloc
 FailOnlyBeforeFirstCommit == pc = "failed" => done = <<>>
 
 TypeOK == /\ pc \in {"nofile", "fallocate", "fsync", "idle", "hdr", "body", "sync1", "roothdr",
-                     "rootbody", "sync2", "closed", "crashed", "failed"}
+                     "rootbody", "sync2", "closed", "crashed", "failed", "scrub", "scrubsync"}
           /\ mem.next \in {SlotA, SlotB}
 =================================================================================
